@@ -327,6 +327,13 @@ Fixpoint settle (fuel : nat) (x : xsys) (g : seg) : xsys * seg :=
 Definition parse_spec (s : bytes) : option bytes :=   (* <name>[.<hexarg>]* -> command line *)
   match split_on 46 s with
   | name :: args =>
+    if beq name (b "big") then
+      (* big.<hex of a decimal n>: the command [echo] with one argument of n bytes 'x' (requests of megabytes without megabytes of case text) *)
+      match args, build (b "echo") with
+      | [h], inr c => add_all_str c [repeat 120 (N.to_nat (read_N (unhex h)))]
+      | _, _ => None
+      end
+    else
     match build name with
     | inl _ => None
     | inr c => add_all_str c (map unhex args)
